@@ -947,6 +947,58 @@ def _bip322(ctx: Ctx, j: Judge, s: gs.Spend) -> None:
         ok, answer = j.call(site, lambda given=given: bip322.verify(msg, addr, given))
         j.check(P19, "predicate-total", lambda: ok and isinstance(answer, bool), lambda: f"{what}: answered {answer!r}", site)
         ctx.probe(f"bip322-{answer if ok else 'raised'}:{s.form}")
+    if ctx.ch.chance(1, 2, "bip322.pof?"):
+        _bip322_pof(ctx, j, s, msg, addr)
+
+
+def _bip322_pof(ctx: Ctx, j: Judge, s: gs.Spend, msg: bytes, addr: str) -> None:
+    """The proof-of-funds variant from a prover who writes every field of the psbt: the challenge input as the spend has
+    it, and 1-3 further inputs over the outputs of one funding transaction -- carried by the input itself, borrowed from an
+    earlier input (BIP322 lets a later input omit it), carried under another id, or missing; indexes inside the
+    transaction, one past its last output, far past it. The verifier is handed the object and the text."""
+    from btclib.psbt.psbt import Psbt  # noqa: PLC0415
+    from btclib.tx import OutPoint, Tx, TxIn, TxOut  # noqa: PLC0415
+
+    ch = ctx.ch
+    funding = Tx(2, 0, [TxIn(OutPoint(ch.nbytes(32, "pof.fund.prev"), 0), b"", 0xFFFFFFFF)], [TxOut(1000 + k, s.spk) for k in range(1 + ch.draw(3, "pof.fund.nout"))], check_validity=False)
+    other = Tx(2, 1, list(funding.vin), list(funding.vout), check_validity=False)  # the same outputs under another id
+    n_out = len(funding.vout)
+    plan = []
+    for k in range(1 + ch.draw(3, "pof.extra")):
+        carries = ch.pick(["own", "borrowed", "other-id", "witness-utxo", "nothing"] if k else ["own", "own", "other-id", "witness-utxo", "nothing"], "pof.carries")
+        vout = ch.pick([None, n_out, n_out + 1, 0xFFFFFFFE], "pof.vout")
+        plan.append((carries, ch.draw(n_out, "pof.vout.in") if vout is None else vout))
+
+    def build() -> Any:
+        psbt0 = bip322.to_sign_psbt(msg, addr)
+        tx = psbt0.tx
+        vin = list(tx.vin) + [TxIn(OutPoint(funding.id, vout, check_validity=False), b"", 0, check_validity=False) for _, vout in plan]
+        psbt = Psbt.from_tx(Tx(tx.version, tx.lock_time, vin, tx.vout, check_validity=False), check_validity=False)
+        psbt.signed_message = msg
+        psbt.inputs[0].non_witness_utxo = psbt0.inputs[0].non_witness_utxo
+        psbt.inputs[0].final_script_sig = s.script_sig
+        psbt.inputs[0].final_script_witness = Witness(s.witness, check_validity=False)
+        for psbt_in, (carries, vout) in zip(psbt.inputs[1:], plan):
+            psbt_in.final_script_witness = Witness(s.witness, check_validity=False)
+            if carries == "own":
+                psbt_in.non_witness_utxo = funding
+            elif carries == "other-id":
+                psbt_in.non_witness_utxo = other
+            elif carries == "witness-utxo":
+                psbt_in.witness_utxo = funding.vout[min(vout, n_out - 1)]
+        return bip322.Sig(psbt)
+
+    site = f"bip322.verify/pof/{s.form}"
+    ok, sig = j.call(site, build)
+    if not ok:
+        ctx.probe("pof-not-built")
+        return
+    ctx.fault("hostile-proof-of-funds", ",".join(f"{c}:{min(v, 9)}" for c, v in plan))
+    okt, text = j.call(site, lambda: sig.b64encode(check_validity=False))
+    for what, given in (("object", sig), *((("text", text),) if okt else ())):
+        ok, answer = j.call(site, lambda given=given: bip322.verify(msg, addr, given))
+        j.check(P19, "predicate-total", lambda: ok and isinstance(answer, bool), lambda: f"{what}: answered {answer!r}", site)
+        ctx.probe(f"bip322-pof-{answer if ok else 'raised'}")
 
 
 # ---------------------------------------------------------------------------
